@@ -305,6 +305,35 @@ example :
       ∧ footprint h (.nreverse (.cell 1)) = [1, 0] ∧ chain h 5 (.cell 3) = some [3, 2] := by
   refine ⟨by rfl, by rfl, by rfl⟩
 
+/-- **the permission the check uses is sound.** When `mayChange` (the function the driver evaluates
+    to build the may-change set, for any region assignment `regs`) answers `false` for a list, that
+    list keeps its cells and its printed contents when the operation runs. -/
+theorem mayChange_sound {regs : List Nat} {h h' : Heap} {op : Op} {res : Ref}
+    (hr : run h op = .ok (h', res))
+    {n : Nat} {r : Ref} {as : List Nat} (hc : chain h n r = some as)
+    (hm : mayChange regs h op r = false) :
+    chain h' n r = some as ∧ carsOf h' as = carsOf h as := by
+  cases hd : op.destructive with
+  | false => exact (nondestructive_frame hd hr hc).2
+  | true =>
+    apply destructive_footprint hd hr hc
+    intro a ha hfp
+    unfold mayChange at hm
+    cases hco : chainOf h r with
+    | error e => simp [hco] at hm
+    | ok as' =>
+      have has : as' = as := chain_fuel_irrelevant (chainOf_ok.mp hco) hc
+      subst has
+      simp only [hco] at hm
+      have hall := List.any_eq_false.mp hm a ha
+      cases hg : regs[a]? with
+      | none => simp [hg] at hall
+      | some g =>
+        simp only [hg] at hall
+        apply hall
+        simp only [List.contains_iff_mem, List.mem_filterMap]
+        exact ⟨a, hfp, hg⟩
+
 /-! ## extending operations never overwrite -/
 
 /-- An extending operation (`cons push list* append add nconc`) keeps the car of every existing cell
